@@ -47,6 +47,7 @@ fn c02_lookup_table_null_long() {
 	assert!(same_direct(&real, &hand), "c02_lookup_table: PerTypeLookup::new([null,long]) differs from the expected table");
 	std::mem::forget(real);
 	std::mem::forget(hand);
+	kani::cover!(true, "end of harness reached");
 }
 
 fn unnamed_is(l: &PerTypeLookup<'static>, k: UnionVariantLookupKey, want: Option<(i64, NodeRef<'static>)>) -> bool {
@@ -84,4 +85,5 @@ fn c02_lookup_conflicts() {
 	assert!(unnamed_is(&il, UnionVariantLookupKey::Integer8, Some((1, long))), "c02_lookup: i64 must go to long in [int, long]");
 	assert!(unnamed_is(&il, UnionVariantLookupKey::Integer, None), "c02_lookup: other integer widths are ambiguous in [int, long]");
 	std::mem::forget(il);
+	kani::cover!(true, "end of harness reached");
 }
